@@ -1,11 +1,15 @@
 """C12 - backtesting dispatcher: global time order, exactly-once delivery, handler stages, clock (DESIGN.md 4, C12).
 
-Real BacktestingDispatcher on the virtual loop; n sources with every non-decreasing timestamp sequence on {1,2,3} (ties
-within and across sources), two handlers per source, optional catch-all handlers (front-running and trailing), duplicate
-subscriptions, a handler that pushes events to a derived source (stamped now or later), a raising handler, a job
-scheduled for the past from a handler; max_concurrent 1/2/50; every handler suspension pattern within the bound.
+Real BacktestingDispatcher on the virtual loop; n sources with every non-decreasing timestamp sequence on {1,1.5,3} (ties
+within and across sources), two handlers per source, catch-all handlers (front-running and trailing: none / one kind
+alone / one of each / two of each), duplicate subscriptions (adjacent and a-b-a, through bound methods of instances of ONE
+class), a handler that pushes events to a derived source (stamped now or later), a raising handler (any position: first or
+last handler of a source, a front-running or a trailing catch-all handler; a plain function, a functools.partial or a
+callable instance), a job scheduled for the past from a handler; max_concurrent 1/2/50; every handler suspension pattern
+within the bound.
 """
 import collections
+import functools
 import itertools
 
 import basana as bs
@@ -15,15 +19,21 @@ from mc.framework import Result, h64
 from worlds.dsp import Gates, T, run_on_vloop, secs
 
 PROPERTY = "C12"
-RULE = ("scenario = (timestamp sequence per source, max_concurrent, sniffers?, derived-push mode, raising handler?, "
-        "duplicate subscriptions?, past-dated job?); per scenario every choice sequence (suspension pattern of each "
-        "handler invocation: none / 1 yield / 2 yields / external gate; gate release order) within the deviation bound "
-        "runs on the real dispatcher. Distinct = distinct (scenario, invocation trace); non-trivial = at least two "
-        "handler invocations.")
+RULE = ("scenario = (timestamp sequence per source, max_concurrent, catch-all handlers (0..2 front-running, 0..2 trailing), "
+        "derived-push mode, raising handler (which one; function / functools.partial / callable instance), duplicate "
+        "subscriptions (none / adjacent / a-b-a; handlers are then bound methods of several instances of one class), "
+        "past-dated job?); per scenario every choice sequence (suspension pattern of each handler invocation: none / 1 "
+        "yield / 2 yields / external gate; gate release order) within the deviation bound runs on the real dispatcher. "
+        "Distinct = distinct (scenario, invocation trace); non-trivial = at least two handler invocations.")
 ASSUMPTIONS = [
     "timestamps on {1, 1.5, 3}; <=2 sources x <=2 events (quick), <=3 sources / <=3 events (thorough); 2 handlers per source",
     "sources yield their events in non-decreasing time order (premise of the property); derived events carry a time >= now",
     "CPython FIFO ready-queue order is kept; only suspension patterns and external completion order are permuted",
+    "the handler-variety families (raising handler position / kind, catch-all arrangements, a-b-a duplicates) run on 8 "
+    "representative timestamp patterns, the base family on all patterns",
+    "the order in which catch-all handlers of one stage start is not part of the statement and is not checked",
+    "events pushed to a derived source by a scheduled JOB (rather than by a handler) are outside the quantifier; the "
+    "scenario exists but is disabled (PENDING_DEFECTS: such an event is handled with the clock of the next event time)",
 ]
 BOUNDS = {"quick": dict(sources=2, events_per_source=2, deviation_bound=1),
           "thorough": dict(sources=3, events_per_source=3, deviation_bound=2, note="deviation bound 1 for patterns with >= 4 events")}
@@ -31,8 +41,15 @@ EXPLANATION = ("implementation-level model checking: every explored trace is an 
                "traces_validated_against_impl counts executions re-run from their recorded choices with identical "
                "observations")
 
+# Scenarios that report a behaviour of the UNCHANGED tree which is (arguably) outside the quantifier; kept disabled until
+# /repo is repaired or the question is settled (see notes/I1.md, notes/I1-defect-1.py).
+PENDING_DEFECTS = {"job-pushes-derived-event"}
 
 GRID = (1, 1.5, 3)  # two values share a UTC second: sub-second resolution matters
+# representative timestamp patterns for the handler-variety families
+SHAPES_S = (((1,), ()), ((1, 1), ()), ((1, 1.5), ()), ((1, 3), ()), ((1,), (1,)), ((1, 1.5), (1,)), ((1, 3), (1.5,)),
+            ((1, 1), (1, 3)))
+KINDS = ("fn", "partial", "callable")
 
 
 def _seqs(maxlen):
@@ -40,6 +57,10 @@ def _seqs(maxlen):
     for n in range(0, maxlen + 1):
         out.extend(itertools.combinations_with_replacement(GRID, n))
     return out
+
+
+def _opts(**kw):
+    return tuple(sorted(kw.items()))
 
 
 def scenarios(tier, seed):
@@ -66,11 +87,72 @@ def scenarios(tier, seed):
                 if tier == "thorough" and sum(len(x) for x in st) >= 5 and (dup or raiser or pastjob or maxc == 3):
                     continue
                 out.append((st, maxc, sniff, derived, raiser, dup, pastjob))
+    # handler variety: catch-all arrangements x which handler raises x what kind of callable it is
+    seen = set(out)
+    for st in SHAPES_S:
+        for maxc in maxcs:
+            for sn in ((0, 0), (1, 0), (0, 1), (1, 1), (2, 2)):
+                targets = ["h00", "h01"] + (["pre0"] if sn[0] else []) + (["post0"] if sn[1] else [])
+                raises = [None] + [(t, k) for t in targets for k in KINDS]
+                for rz in raises:
+                    for derived in (0, 1):
+                        if rz is None and sn in ((0, 0), (1, 1)):
+                            continue  # in the base family
+                        if rz == ("h01", "fn") and sn in ((0, 0), (1, 1)):
+                            continue  # in the base family
+                        if rz and rz[1] != "fn" and derived:
+                            continue  # the kind of callable only matters where the exception is caught
+                        kw = dict(sn=sn)
+                        if rz:
+                            kw["raise"] = rz
+                        out.append((st, maxc, bool(sn[0] or sn[1]), derived, bool(rz), False, False, _opts(**kw)))
+            # non-adjacent duplicate subscriptions (a, b, a)
+            for sn in ((0, 0), (1, 1), (2, 2)):
+                for derived in (0, 1):
+                    out.append((st, maxc, bool(sn[0]), derived, False, "aba", False, _opts(sn=sn)))
+            # a scheduled job that pushes an event stamped now() to the derived source
+            if "job-pushes-derived-event" not in PENDING_DEFECTS:
+                for sniff in (False, True):
+                    out.append((st, maxc, sniff, 0, False, False, False, _opts(jobpush=2.0)))
+    assert len(set(out)) == len(out) and not (seen & set(out[len(seen):]))
     return out
 
 
+class _Strategy:
+    """ONE class for all handlers of the duplicate-subscription scenarios: every access to .on_event gives an equal but
+    not identical bound method; the bound methods of two instances share __func__ and differ in __self__."""
+
+    def __init__(self, fn):
+        self._fn = fn
+
+    async def on_event(self, e):
+        return await self._fn(e)
+
+
+class _Callable:
+    """A handler that is a callable instance (no __qualname__ / __name__ of its own)."""
+
+    def __init__(self, fn):
+        self._fn = fn
+
+    async def __call__(self, e):
+        return await self._fn(e)
+
+
+async def _with_extra(fn, e, limit=None):
+    return await fn(e)
+
+
+def parse(sc):
+    src_times, maxc, sniff, derived, raiser, dup, pastjob = sc[:7]
+    opts = dict(sc[7]) if len(sc) > 7 else {}
+    npre, npost = opts.get("sn", (1, 1) if sniff else (0, 0))
+    rtarget, rkind = opts.get("raise", ("h01", "fn") if raiser else (None, None))
+    return src_times, maxc, (npre, npost), derived, (rtarget, rkind), dup, pastjob, opts.get("jobpush")
+
+
 def make_run(sc, states=None):
-    src_times, maxc, sniff, derived, raiser, dup, pastjob = sc
+    src_times, maxc, (npre, npost), derived, (rtarget, rkind), dup, pastjob, jobpush = parse(sc)
 
     def run_one(ch):
         d = bs.backtesting_dispatcher(max_concurrent=maxc)
@@ -92,7 +174,9 @@ def make_run(sc, states=None):
             if states is not None:
                 states.add(h64((tuple(trace), len(gates.pending))))
 
-        def mk(hname, push_derived=0, raises=False, sched_past=False):
+        def mk(hname, push_derived=0, sched_past=False):
+            raises = hname == rtarget
+
             async def h(e):
                 trace.append(("start", hname, eid(e), secs(e.when), secs(d.now())))
                 if push_derived:
@@ -110,29 +194,44 @@ def make_run(sc, states=None):
                     raise ValueError("handler fails")
             h.__name__ = hname
             if dup:
-                # an equal-but-not-identical callable on every access, like the bound method of a strategy object
-                class _Strategy:
-                    async def on_event(self, e):
-                        return await h(e)
-                holder = _Strategy()
+                # an equal-but-not-identical callable on every access, like the bound method of a strategy object; all
+                # handlers are methods of instances of one class
+                holder = _Strategy(h)
                 return lambda: holder.on_event
+            if raises and rkind == "partial":
+                p = functools.partial(_with_extra, h, limit=10)
+                return lambda: p
+            if raises and rkind == "callable":
+                c = _Callable(h)
+                return lambda: c
             return lambda: h
 
+        def subscribe_round(sub, getters):
+            if dup is True:
+                for g in getters:  # adjacent duplicates
+                    sub(g())
+                    sub(g())
+            else:
+                for g in getters:
+                    sub(g())
+                if dup == "aba":  # the second round comes after every first-round subscription, in reverse order
+                    for g in reversed(getters):
+                        sub(g())
+
         for i, s in enumerate(srcs):
-            for j in range(2):
-                h = mk(f"h{i}{j}", push_derived=(derived if (i == 0 and j == 0) else 0),
-                       raises=(raiser and i == 0 and j == 1), sched_past=(pastjob and i == len(srcs) - 1 and j == 0))
-                d.subscribe(s, h())
-                if dup:
-                    d.subscribe(s, h())
-        d.subscribe(dsrc, mk("hD")())
-        if sniff:
-            pre, post = mk("pre"), mk("post")
-            d.subscribe_all(pre(), front_run=True)
-            d.subscribe_all(post())
-            if dup:
-                d.subscribe_all(pre(), front_run=True)
-                d.subscribe_all(post())
+            getters = [mk(f"h{i}{j}", push_derived=(derived if (i == 0 and j == 0) else 0),
+                          sched_past=(pastjob and i == len(srcs) - 1 and j == 0)) for j in range(2)]
+            subscribe_round(lambda h, s=s: d.subscribe(s, h), getters)
+        subscribe_round(lambda h: d.subscribe(dsrc, h), [mk("hD")])
+        subscribe_round(lambda h: d.subscribe_all(h, front_run=True), [mk(f"pre{k}") for k in range(npre)])
+        subscribe_round(lambda h: d.subscribe_all(h), [mk(f"post{k}") for k in range(npost)])
+        if jobpush is not None:
+            async def pusher():
+                trace.append(("job", secs(d.now())))
+                ne = bs.Event(d.now())
+                pushed.append((eid(ne), secs(ne.when)))
+                dsrc.push(ne)
+            d.schedule(T(jobpush), pusher)
 
         def on_step(loop):
             if d.now_available:
@@ -152,8 +251,12 @@ def make_run(sc, states=None):
     return run_one
 
 
+def _stage(h):
+    return "pre" if h.startswith("pre") else "post" if h.startswith("post") else "src"
+
+
 def oracle(sc, r):
-    src_times, maxc, sniff, derived, raiser, dup, pastjob = sc
+    src_times, maxc, (npre, npost), derived, (rtarget, rkind), dup, pastjob, jobpush = parse(sc)
     bad = []
     if r["out"] != "returned":
         bad.append(("run-outcome", r["out"]))
@@ -167,7 +270,7 @@ def oracle(sc, r):
         bad.append(("delivered-twice", f"{dups[0]} delivered {cnt[dups[0]]}x"))
     per_handler = collections.Counter(x[1] for x in starts)
     n_derived = len(r["pushed"])
-    expected_derived = len(src_times[0]) if derived else 0
+    expected_derived = (len(src_times[0]) if derived else 0) + (1 if jobpush is not None else 0)
     if n_derived != expected_derived:
         bad.append(("harness", f"derived pushes {n_derived} != {expected_derived}"))
     for i, times in enumerate(src_times):
@@ -176,11 +279,10 @@ def oracle(sc, r):
                 bad.append(("missed-delivery", f"h{i}{j} got {per_handler[f'h{i}{j}']} of {len(times)} events"))
     if per_handler["hD"] != n_derived:
         bad.append(("missed-delivery", f"derived handler got {per_handler['hD']} of {n_derived} events"))
-    if sniff:
-        tot = sum(len(t) for t in src_times) + n_derived
-        for s in ("pre", "post"):
-            if per_handler[s] != tot:
-                bad.append(("missed-delivery", f"{s}-sniffer got {per_handler[s]} of {tot} events"))
+    tot = sum(len(t) for t in src_times) + n_derived
+    for s in [f"pre{k}" for k in range(npre)] + [f"post{k}" for k in range(npost)]:
+        if per_handler[s] != tot:
+            bad.append(("missed-delivery", f"catch-all handler {s} got {per_handler[s]} of {tot} events"))
     ts = [x[3] for x in starts]
     if ts != sorted(ts):
         bad.append(("time-order", f"event times not globally non-decreasing: {ts}"))
@@ -188,23 +290,34 @@ def oracle(sc, r):
         if x[3] != x[4]:
             bad.append(("clock-in-handler", f"handler {x[1]} of event@{x[3]} saw clock {x[4]}"))
     ev_time = {x[2]: x[3] for x in starts}
+    ended = set()
     for x in tr:
-        if x[0] == "end" and x[3] != ev_time.get(x[2]):
-            bad.append(("clock-in-handler", f"handler {x[1]} of event@{ev_time.get(x[2])} finished with clock {x[3]}"))
+        if x[0] == "end":
+            ended.add((x[1], x[2]))
+            if x[3] != ev_time.get(x[2]):
+                bad.append(("clock-in-handler", f"handler {x[1]} of event@{ev_time.get(x[2])} finished with clock {x[3]}"))
+    for x in starts:
+        if (x[1], x[2]) not in ended:
+            # the run ended (sources exhausted) although a handler it had started was still running: it was cancelled or
+            # abandoned, i.e. the event was not really delivered to it
+            bad.append(("handler-unfinished", f"handler {x[1]} of event@{x[3]} was started but never ran to its end"))
     if r["clock"] != sorted(r["clock"]):
         bad.append(("clock-backwards", f"clock sequence {r['clock']}"))
     byev = collections.defaultdict(list)
     for k, x in enumerate(tr):
         if x[0] in ("start", "end"):
             byev[x[2]].append((k, x))
+    inf = 10 ** 9
     for ev, items in byev.items():
         st = {x[1]: k for k, x in items if x[0] == "start"}
         en = {x[1]: k for k, x in items if x[0] == "end"}
-        hs = [h for h in st if h not in ("pre", "post")]
-        if "pre" in st and any(st[h] < en.get("pre", 10 ** 9) for h in hs + (["post"] if "post" in st else [])):
-            bad.append(("stage-order", "a handler started before the front-running sniffer finished"))
-        if "post" in st and any(en.get(h, 10 ** 9) > st["post"] for h in hs):
-            bad.append(("stage-order", "trailing sniffer started before the source's handlers finished"))
+        pres = [h for h in st if _stage(h) == "pre"]
+        posts = [h for h in st if _stage(h) == "post"]
+        hs = [h for h in st if _stage(h) == "src"]
+        if pres and any(st[h] < en.get(p, inf) for p in pres for h in hs + posts):
+            bad.append(("stage-order", "a handler started before the front-running catch-all handlers finished"))
+        if posts and any(en.get(h, inf) > st[p] for p in posts for h in hs):
+            bad.append(("stage-order", "a trailing catch-all handler started before the source's handlers finished"))
         hs_sorted = sorted(hs, key=lambda h: st[h])
         if hs_sorted != sorted(hs):
             bad.append(("subscription-order", f"handlers started in order {hs_sorted}"))
@@ -241,9 +354,13 @@ def run_scenario(sc, tier):
     return res
 
 
+def _tuplify(x):
+    return tuple(_tuplify(y) for y in x) if isinstance(x, (list, tuple)) else x
+
+
 def replay(rep):
     s = rep["scenario"]
-    sc = (tuple(tuple(t) for t in s[0]),) + tuple(s[1:])
+    sc = (tuple(tuple(t) for t in s[0]),) + tuple(s[1:7]) + ((_tuplify(s[7]),) if len(s) > 7 else ())
     r = make_run(sc)(Chooser(rep["choices"]))
     print("scenario:", sc)
     for x in r["trace"]:
